@@ -386,7 +386,7 @@ impl Monitor for QuoteMon {
             let computation_refusals = [
                 ec(E::ZeroTradableAmount), ec(E::AmountCalcOverflow), ec(E::AmountRemainingOverflow), ec(E::MultiplicationOverflow), ec(E::MulDivOverflow),
                 ec(E::MultiplicationShiftRightOverflow), ec(E::TokenMaxExceeded), ec(E::TokenMinSubceeded), ec(E::NumberDownCastError), ec(E::DivideByZero), ec(E::SqrtPriceOutOfBounds),
-                ec(E::LiquidityOverflow), ec(E::LiquidityUnderflow), ec(E::InvalidTimestamp),
+                ec(E::LiquidityOverflow), ec(E::LiquidityUnderflow), ec(E::InvalidTimestamp), ec(E::InvalidSqrtPriceLimitDirection),
             ];
             if let Some(code) = code {
                 if q.is_ok() {
